@@ -9,7 +9,7 @@ CONSTANTS
   MaxParse = 2
   Family = "c05p"
   Reconfigure = TRUE
-  Small = FALSE
+  Small = TRUE
   Emit = TRUE
 INVARIANTS
   Inv_ExpectIff
